@@ -55,6 +55,7 @@ theorem fold_error_iff (k : Kind) (ms : List (Name × Option Int)) :
   · have := sim.2 hV
     simp [assign, hV, fold, this]
 
+example : (fold (new .enumeration) ([([97], some (-5)), ([98], none)].map toMember)).2 = [] := by decide
 example : assign .enumeration [([97], some (-5)), ([98], none)] = some [([97], -5), ([98], -4)] := by decide
 example : assign .bits [([97], some 2147483647), ([98], none)] = some [([97], 2147483647), ([98], 2147483648)] := by decide
 example : assign .enumeration [([97], some 2147483647), ([98], none)] = none := by decide
@@ -116,6 +117,7 @@ theorem implicit_beyond_max (k : Kind) (ms : List (Name × Option Int)) (name : 
     simp [assign, ht, hnv]
   · exact absurd h (sim.2 hV)
 
+example : (fold (new .bits) ([([97], some 4294967295)].map toMember)).2 = [] := by decide
 example : nextValue ((table [([97], some 4294967295)]).map (·.2)) = Kind.bits.max + 1 := by decide
 
 /-- The argument glue of the `set` closure (`ParseInt` then `Int()`): on `[sign] digits` without
